@@ -148,6 +148,17 @@ class AxArr:
     def skv_getattr(self, name):
         if name == "shape":
             return tuple(Poly.sym("n_" + str(a)) for a in self.axes)
+        if name == "T":
+            return AxArr(tuple(reversed(self.axes)), self.tag)
+        if name == "transpose":
+            def tr(a, k, n):
+                if not a:
+                    return AxArr(tuple(reversed(self.axes)), self.tag)
+                perm = a[0] if len(a) == 1 and isinstance(a[0], tuple) \
+                    else a
+                return AxArr(tuple(self.axes[int(i)] for i in perm),
+                             self.tag)
+            return PyFunc(tr)
         if name == "reshape":
             def rs(a, k, n):
                 shp = a[0] if len(a) == 1 and isinstance(a[0], tuple) else a
